@@ -20,7 +20,7 @@ SKIP = ('confirm_make_check.log', 'baseline_check.log', 'make_check.log', 'check
 
 def main():
     for name in sys.argv[1:]:
-        src = '/tmp/seed_out/' + name
+        src = os.environ.get('SEED_OUT', '/tmp/seed_out') + '/' + name
         c = json.load(open(src + '/confirm.json'))
         if not (c['applies'] == 1 and c['make_check_rc'] == 0 and c['demo_rc_with_patch'] != 0 and c['demo_rc_without_patch'] == 0):
             print(name, 'NOT confirmed:', c); continue
